@@ -71,8 +71,8 @@ def balanced(rng, k, depth=0, in_quotes=False, maxwords=6):
     # never let a backslash directly precede a structural delimiter
     if s.endswith("\\"):
         s += "x"
-    if k["newline"] == "\r\n":
-        s = s.replace("\n", "\r\n")
+    if k["newline"] != "\n":
+        s = s.replace("\n", k["newline"])
     return s
 
 
@@ -133,8 +133,9 @@ def _ws(rng, k, kind):
         return rng.choice(["", "", " "])
     if lay == "pretty":
         return {"pre_field": nl + "  ", "eq": " ", "end": nl, "sep": nl + nl}.get(kind, " ")
-    # wild
-    return rng.choice(["", " ", "\t", nl, nl + "  ", "  " + nl + nl + " "])
+    # wild (incl. white space that is not ASCII: form feed, vertical tab, no-break space, line / paragraph separator)
+    return rng.choice(["", " ", "\t", nl, nl + "  ", "  " + nl + nl + " "] * 3 + ["\x0c", "\x0b", "\u00a0", "\u2028", " \u2029" + nl, "\u3000"]
+                      if k.get("uws") else ["", " ", "\t", nl, nl + "  ", "  " + nl + nl + " "])
 
 
 def _key(rng, k, pool):
@@ -274,7 +275,8 @@ def draw_knobs(rng, tier="quick", encoding="utf-8"):
         "nblocks": rng.choice([1, 2, 3, 4, 5, 6, 8, 12] if tier == "quick" else [1, 2, 3, 5, 8, 12, 20, 40]),
         "nonascii": {"utf-8": rng.choice(["none", "any", "any"]), "utf-16": rng.choice(["none", "any"]),
                      "latin-1": rng.choice(["none", "latin1"]), "gbk": "none"}.get(encoding, "none"),
-        "newline": rng.choice(["\n", "\n", "\n", "\r\n"]),
+        "newline": rng.choice(["\n", "\n", "\n", "\r\n", "\r\n", "\r"]),
+        "uws": encoding in ("utf-8", "utf-16") and rng.random() < 0.25,
         "layout": rng.choice(["pretty", "pretty", "compact", "wild"]),
         "collide": False,
         "casekeys": rng.choice([0.0, 0.0, 0.3]),
